@@ -16,7 +16,7 @@ func init() { register("C01", checkC01) }
 // engineFns resolves the engine's session functions by role name; a missing anchor is an ERROR (exit 2), never a violation.
 type engineFns struct {
 	loop, visit, pick, tryResume, resume, start, findExit, failRun *ssa.Function
-	statusField                                                   *types.Var
+	statusField                                                    *types.Var
 }
 
 func resolveEngine(p *core.Program, r *core.Report) *engineFns {
